@@ -422,6 +422,39 @@ def worker_f(payload):
                         orc(name)["viol"].append({"law": "delete the methods whose condition fails, then the documented rule", **wit})
             if stop_after:
                 break
+        # ---- C06 on value-dependent functions: the same definitions registered in another order answer every call alike
+        # (plain classes, Literals and conditions only: unions / intersections are outside, finding D3)
+        alltys6 = [p["ty"] for d in sc["defs"] for p in d["params"]]
+        regs6 = [op[1] for op in sc["ops"] if op[0] == "reg"]
+        sigs6 = [json.dumps([[p["kind"] == "ko", p["ty"], p["req"]] for p in sc["defs"][q]["params"]]) for q in regs6]
+        if i % 2 == 0 and len(regs6) >= 2 and len(set(regs6)) == len(regs6) and len(set(sigs6)) == len(sigs6) and not any(k in kinds_of(t) for t in alltys6 for k in ("union", "inter")):
+            perm = list(regs6)
+            rng.shuffle(perm)
+            if perm != regs6:
+                sc2 = dict(sc)
+                calls6 = [op for op in sc["ops"] if op[0] == "call"]
+                first_call = next(q for q, op in enumerate(sc["ops"]) if op[0] == "call") if calls6 else None
+                if first_call is not None and all(op[0] == "reg" for op in sc["ops"][:first_call]) and all(op[0] == "call" for op in sc["ops"][first_call:]):
+                    sc2["ops"] = [["reg", q] for q in perm] + calls6
+                    # ... and another iteration order of the library's sets of handlers and of types
+                    sc2["hrank"] = list(sc["hrank"])
+                    rng.shuffle(sc2["hrank"])
+                    sc2["tyrank_desc"] = list(sc["tyrank_desc"])
+                    rng.shuffle(sc2["tyrank_desc"])
+                    try:
+                        im2 = FnWorld(w, sc2, ew=ew).run()
+                    except Exception:  # noqa
+                        im2 = None
+                    if im2 is not None:
+                        o6 = orc("C06")
+                        for q, (b1, b2) in enumerate(zip(im[first_call:], im2[len(perm):])):
+                            o6["n"] += 1
+                            o6["nontrivial"] += 1
+                            k1 = (b1["o"][0], (b1.get("t") or [[None]])[0][0] if b1["o"][0] == "ran" else None)
+                            k2 = (b2["o"][0], (b2.get("t") or [[None]])[0][0] if b2["o"][0] == "ran" else None)
+                            if k1 != k2:
+                                o6["viol"].append({"law": "outcome depends on the order in which distinct signatures were registered", "first": list(k1), "second": list(k2), "order": perm, "kind": "fn-dep", "world": w.desc, "scenario": sc, "op_index": first_call + q})
+                                break
         if len(out["samples"]) < 1:
             out["samples"].append({"defs": sc["defs"][:3], "last_op": sc["ops"][-1], "impl": {k: v for k, v in im[-1].items() if k in ("o", "t")}})
     return out
